@@ -116,32 +116,27 @@ C14_PART = (G, "gosym_part", dict(name="c14_type_plans", entry="internal/zzverif
 
 C08X_ASSUME = ["expression trees: leaf | -e | e as T | e op e with op in {+,-,*,/,**}; family 0: every tree of nesting depth <= d over field leaves (each leaf a different field, "
                "int and double fields alternating so that validation inserts implicit conversions); family 1: every tree of depth <= l whose leaves are fields, the negative integer "
-               "literal -3 or the floating-point literal 1.5; quick d=2, l=1; thorough d=3 (only one operand of a depth-3 binary operator is deeper than 1), l=2",
+               "literal -3, the floating-point literal 1.5, a field of a nested record (sub.innerValue) or another computed field; quick d=2, l=1; thorough d=3 (only one operand of a depth-3 binary operator is deeper than 1), l=2",
                "the operand of a unary minus is never a literal (the expression parser folds -literal into the literal); conversions to int, float, double, long",
-               "subscripts, size()/dimension functions, switch expressions, nested-record member access and computed-field references are outside this part (C10 forms / pysym C19 cover them differently)",
+               "subscripts, size()/dimension functions and switch expressions are outside this part (C10 forms / pysym C19 cover them differently)",
                "reader grammars: C++ [expr] precedence table (unary > * / % > + - > shifts > relational > equality > & ^ | && ||, all left-associative; maximal munch, so `--` / `++` are "
                "decrement / increment); Python reference 6.17 (** right-associative and binding tighter than a unary operator on its left); MATLAB operator precedence (^ left-associative, "
                "binding tighter than unary minus on its left, unary operators allowed directly after ^)"]
 
-C08_CPP_EXPR_PART = (G, "gosym_part", dict(name="c08_cpp_computed_expr", entry="internal/zzverif.C08CppExpr", args_quick=(2, 1), args_thorough=(3, 2),
-                                      extra_thorough=("-max-paths", "200000"),
-                                      required_sites=("cpp-text-is-one-complete-expression", "cpp-expression-has-no-side-effect", "cpp-expression-denotes-the-source-tree"),
-                                      assumptions=C08X_ASSUME,
-                                      desc="real dsl.Validate on a record with one computed field, the resolved expression through the real cpp/types.writeComputedFieldExpression; the emitted text is "
-                                           "read back by a C++ expression reader (tokens by maximal munch, C++ precedence and associativity, static_cast<T>(e), calls, member access): it is one "
-                                           "complete expression, contains no increment / decrement / assignment operator (the accessor is a const member function), and denotes exactly the tree "
-                                           "of the resolved source expression, with std::pow(a, b) read as a ** b, static_cast<T> as a conversion to the documented C++ type, and field names "
-                                           "mapped to the members the struct in types.h declares (read back)"))
-
-C19_SCRIPT_EXPR_PART = (G, "gosym_part", dict(name="c19_script_computed_expr", entry="internal/zzverif.C19ScriptExpr", args_quick=(2, 1), args_thorough=(3, 2),
-                                         extra_thorough=("-max-paths", "200000"),
-                                         required_sites=("python-body-is-one-return-statement", "python-text-is-one-complete-expression", "python-expression-denotes-the-source-tree",
-                                                         "matlab-body-is-one-assignment-to-res", "matlab-text-is-one-complete-expression", "matlab-expression-denotes-the-source-tree"),
-                                         assumptions=C08X_ASSUME,
-                                         desc="the same trees through the real python/types and matlab/types writeComputedFieldExpression: the body is one `return <expr>` / `res = <expr>; return`, "
-                                              "and <expr>, read back with the Python / MATLAB precedence and associativity rules (** right-associative, ^ left-associative, both binding tighter "
-                                              "than a unary minus on their left; // and / read as division, .* ./ as the element-wise operators), denotes the tree of the resolved source "
-                                              "expression with int()/float() resp. int32()/int64()/single()/double() read as the documented conversions: the three emitters denote the same tree"))
+C08_EXPR_PART = (G, "gosym_part", dict(name="c08_computed_expr_text", entry="internal/zzverif.C08ComputedExpr", args_quick=(2, 1), args_thorough=(3, 2),
+                                  extra_thorough=("-max-paths", "400000"),
+                                  required_sites=("cpp-text-is-one-complete-expression", "cpp-expression-has-no-side-effect", "cpp-expression-denotes-the-source-tree",
+                                                  "python-body-is-one-return-statement", "python-text-is-one-complete-expression", "python-expression-denotes-the-source-tree",
+                                                  "matlab-body-is-one-assignment-to-res", "matlab-text-is-one-complete-expression", "matlab-expression-denotes-the-source-tree"),
+                                  assumptions=C08X_ASSUME,
+                                  desc="real dsl.Validate on a record with one computed field, the resolved expression through the real cpp/types, python/types and matlab/types "
+                                       "writeComputedFieldExpression.  Each emitted text is read back by an expression reader of the target language (tokens by maximal munch; C++ precedence and "
+                                       "associativity, static_cast<T>(e), calls, member access; Python: ** right-associative; MATLAB: ^ left-associative; both bind tighter than a unary minus on "
+                                       "their left).  C++: the text is one complete expression, contains no increment / decrement / assignment operator (the accessor is a const member function) and "
+                                       "denotes exactly the tree of the resolved source expression, with std::pow(a, b) read as a ** b, static_cast<T> as the conversion to the documented C++ type, "
+                                       "field names mapped to the members the struct in types.h declares (read back).  Python / MATLAB: the body is one `return <expr>` / `res = <expr>; return` and "
+                                       "<expr> denotes the same tree (// and / read as division, .* ./ as the element-wise operators, int()/float() resp. int32()/int64()/single()/double() as the "
+                                       "documented conversions): the three emitters denote the same tree"))
 
 C14_TRIVIAL_PART = (G, "gosym_part", dict(name="c14_memcpy_guard", entry="internal/zzverif.C14TriviallySerializable", args_quick=(3,), args_thorough=(4,),
                                      required_sites=("specialization-is-for-the-record-type", "guard-is-a-known-constant-expression", "memcpy-only-if-standard-layout",
@@ -527,8 +522,7 @@ C20V_DESC = ("package Main with imports ../imp (namespace Imp) and two predecess
              "unknown type / int, symbolic 64-bit tag in the record comment); after quiescence the output equals the one-shot output for the final contents, the watcher is alive, cwd is the package directory")
 PARTS = {
     "C08": [
-        C08_CPP_EXPR_PART,      # emitted C++ computed-field expressions are well-formed expressions without side effects
-        C19_SCRIPT_EXPR_PART,   # likewise the Python and MATLAB ones
+        C08_EXPR_PART,   # emitted C++ / Python / MATLAB computed-field expressions are complete, side-effect-free expressions of their language
         C13_IMPORTED_GENERICS,   # definitions come out dependencies-first (also through type arguments of imported generics): generated Python modules import, C++ declares before use
         (G, "gosym_part", dict(name="c08_python_package", entry="internal/zzverif.C08PythonPackage",
                                required_sites=("generation-does-not-panic", "generation-succeeds", "imported-module-was-generated", "ndjson-written-iff-enabled"),
@@ -607,8 +601,7 @@ PARTS = {
     ],
     "C19": [
         (PYG, "c19_py_computed", dict()),
-        C08_CPP_EXPR_PART,      # the C++ text denotes the tree of the source expression
-        C19_SCRIPT_EXPR_PART,   # and so do the Python and MATLAB texts
+        C08_EXPR_PART,   # the C++, Python and MATLAB texts of a computed field denote the tree of the source expression
         (G, "gosym_part", dict(name="c19_static_types", entry="internal/zzverif.C19Types",
                                required_sites=("accept-reject-independent-of-operand-order", "type-independent-of-operand-order", "integer-power-is-float64", "result-kind-is-widest-operand-kind"),
                                assumptions=["documented rule used: `**` on integers yields float64 (docs/*/language.md); otherwise the result kind is the widest operand kind "
